@@ -222,6 +222,21 @@ func VerifC18Refresh() {
 	err := w.Shutdown(context.Background())
 	atomic.StoreInt32(&shutdownReturned, 1)
 	verifrt.Quiesce()
+	// an interval that elapses after Shutdown has returned and the worker has
+	// come to rest must not be refreshed either
+	mu.Lock()
+	rested := len(refreshErrs)
+	mu.Unlock()
+	if verifrt.Bool2() {
+		select {
+		case clk.ch <- time.Time{}:
+		default:
+		}
+		verifrt.Quiesce()
+		mu.Lock()
+		verifrt.Assert(len(refreshErrs) == rested, "an interval that elapsed after Shutdown had returned was refreshed (the loop was not stopped)")
+		mu.Unlock()
+	}
 	mu.Lock()
 	all := append([]error(nil), refreshErrs...)
 	hs := append([]error(nil), handled...)
